@@ -273,6 +273,39 @@ def run_check(ctx):
         states += bm["distinct"] + bt["distinct"]
         transitions += bm["generated"] + bt["generated"]
         basis = {"bounded_model_states": bm["distinct"], "recorded_calls": bt["distinct"]}
+    builder = None
+    if pid in ("C18", "C20"):
+        # spec -> implementation: every script of builder calls (spec/Builder.tla) up to a length,
+        # from Default::default() and from every command line over the option values, replayed on
+        # the real BuildOptimiser; each build() compared with the configuration as last set
+        jobs = [("default", 5 if tier == "thorough" else 4, 2), ("cli", 3 if tier == "thorough" else 2, 1)]
+        builder = {"scripts_replayed": 0, "builds": 0, "origins": []}
+        for origin, maxops, nb in jobs:
+            bcfg = ('SPECIFICATION Spec\nCONSTANTS\n  Origin = "%s"\n  MaxOps = %d\n  NBuilders = %d\n  Variant = "spec"\n'
+                    'INVARIANTS TypeOK Frame C20Shape C18Shape PassThrough Emit\nCHECK_DEADLOCK FALSE\n' % (origin, maxops, nb))
+            br = vp.run_tlc("MC_Builder", bcfg, "%s_builder_%s" % (pid, origin), workers=8, timeout=3000, xmx="8g", deque=False)
+            if br.get("error") or br["violations"]:
+                tool_errors.append("Builder model: %s %s" % (br.get("error"), br["violations"]))
+                continue
+            bnd = os.path.join(br["dir"], "emitted.ndjson")
+            nb_scripts = vp.extract_emitted(br["out"], bnd)
+            bres = os.path.join(br["dir"], "result.json")
+            vp.pvh(["builder-scripts", "--in", bnd, "--out", bres], timeout=3000)
+            bj = json.load(open(bres))
+            states += br["distinct"]
+            transitions += br["generated"]
+            nruns += nb_scripts
+            builder["scripts_replayed"] += bj["scripts"]
+            builder["builds"] += bj["builds"]
+            builder["origins"].append({"origin": origin, "max_ops": maxops, "builders": nb, "model_states": br["distinct"],
+                                       "scripts": bj["scripts"], "schedule_kinds": bj["schedule_kinds"]})
+            if bj["scripts"] == 0:
+                tool_errors.append("Builder: no script replayed")
+            for f in bj["first_failures"][:3]:
+                rp = vp.save_replay(pid, "builder_%s_seed%d" % (origin, seed), {"property": pid, "formula": "Builder.Derive", "failures": [f]})
+                violations.append(("Builder.Derive", f["what"] + ": " + "; ".join(f.get("observed", []) if isinstance(f.get("observed"), list) else [str(f.get("observed"))])
+                                   + " after " + json.dumps(f["script"]["ops"][1:]), rp))
+                break
     initial = None
     if pid == "C08":
         # every supported group with any shape of well-defined area starts from a valid state
@@ -316,6 +349,7 @@ def run_check(ctx):
     wall = time.time() - t0
     coverage = {
         "cli_clause": cli,
+        "builder_script_replay": builder,
         "frequency_side_check": freq,
         "script_replay": scripts,
         "initial_states": initial,
